@@ -3,7 +3,6 @@ package props
 import (
 	"fmt"
 	"go/ast"
-	"go/constant"
 	"go/token"
 	"go/types"
 	"strings"
@@ -278,11 +277,8 @@ func C17pool(p *load.Program, run *report.Run) {
 			cc := st.(*ast.CaseClause)
 			add := int64(0)
 			for _, s := range cc.Body {
-				if as, ok := s.(*ast.AssignStmt); ok && as.Tok == token.ADD_ASSIGN {
-					if tv, ok := pkgA.TypesInfo.Types[as.Rhs[0]]; ok && tv.Value != nil {
-						k, _ := constant.Int64Val(tv.Value)
-						add += k
-					}
+				if _, k, ok := addedConst(pkgA.TypesInfo, s); ok {
+					add += k
 				}
 			}
 			for _, nme := range caseNames(cc) {
